@@ -74,7 +74,7 @@ func loadAsJSON(path string) (interface{}, error) {
 // CheckC19 — JSON and YAML renderings of a spec are interchangeable.
 func CheckC19(run *ev.Run) {
 	r := rng.New(uint64(run.Seed) + 19)
-	n := 4
+	n := 6
 	if run.Tier == "thorough" {
 		n = 60
 	}
@@ -107,6 +107,19 @@ func CheckC19(run *ev.Run) {
 		yb, _ := yaml.Marshal(v)
 		_ = os.WriteFile(filepath.Join(root, "in.yaml"), yb, 0o644)
 		_ = os.WriteFile(filepath.Join(root, "mix.json"), []byte(`{"swagger":"2.0","info":{"title":"m","version":"1"},"paths":{},"definitions":{"extra":{"type":"string","description":"yes"}}}`), 0o644)
+		// the mixin in both renderings, with a definition that has ordered properties (what --keep-spec-order is about)
+		mixDoc := []byte(`{"swagger":"2.0","info":{"title":"m","version":"1"},"paths":{},"definitions":{"extra":{"type":"string","description":"yes"},"ordered":{"type":"object","properties":{"zeta":{"type":"string"},"alpha":{"type":"integer"},"mid":{"type":"object","properties":{"b2":{"type":"string"},"a1":{"type":"string"}}}}}}}`)
+		_ = os.WriteFile(filepath.Join(root, "mixo.json"), mixDoc, 0o644)
+		{
+			var mv interface{}
+			_ = json.Unmarshal(mixDoc, &mv)
+			// written through an ordered node so that both renderings list the properties in the same order
+			var on yaml.Node
+			_ = yaml.Unmarshal(mixDoc, &on)
+			myb, _ := yaml.Marshal(&on)
+			_ = os.WriteFile(filepath.Join(root, "mixo.yaml"), myb, 0o644)
+		}
+		keepOrder := (i/3)%2 == 0 // every other mixin sample (the first one included)
 		replay := map[string]interface{}{"spec": json.RawMessage(spec), "scalars": used, "how": "write the spec as in.json; run the command with --format json and --format yaml; load the YAML output with the toolkit (any command reading it) and compare with the JSON output"}
 		type cmdT struct {
 			name string
@@ -133,7 +146,12 @@ func CheckC19(run *ev.Run) {
 					args := append([]string{}, c.args...)
 					args = append(args, "in."+inFmt)
 					if c.name == "mixin" {
-						args = append(args, "mix.json")
+						if keepOrder {
+							// the mixin is given in the same rendering as the primary: the two inputs are renderings of the same documents
+							args = append(args, "mixo."+inFmt, "--keep-spec-order")
+						} else {
+							args = append(args, "mix.json")
+						}
 					}
 					args = append(args, "-o", out, "--format", outFmt)
 					if compact {
@@ -143,6 +161,9 @@ func CheckC19(run *ev.Run) {
 					run.Traces++
 					variants++
 					key := fmt.Sprintf("%s in=%s out=%s compact=%v", c.name, inFmt, outFmt, compact)
+					if c.name == "mixin" && keepOrder {
+						st["mixin-keep-spec-order-variants"]++
+					}
 					run.Case(fmt.Sprintf("%s|%x", key, hashBytes(spec)))
 					if res.Code != 0 {
 						st["command-fails"]++
